@@ -119,6 +119,11 @@ pub fn record_translate(out_path: &str, count: u64) {
     // the pinned witness of the recorded finding (a string that looks like an overflowing number)
     let mut specials: Vec<V> = vec![V::Map(vec![(V::Str("k".into()), V::Str("1e400".into())), (V::Str("-1E999".into()), V::Int(1))])];
     specials.push(V::Map(vec![(V::Str("float".into()), V::F64(3.62742687658e98)), (V::Str("f2".into()), V::F64(0.12088995980580641))]));
+    // U+FEFF inside keys and strings is an ordinary character (only a leading one is a byte order mark)
+    specials.push(V::Map(vec![(V::Str("k\u{feff}".into()), V::Str("a\u{feff}b".into())), (V::Str("z".into()), V::Seq(vec![V::Str("\u{feff}".into()), V::Str("x\u{feff}".into())]))]));
+    // strings ending in line breaks, as the last node of the document (block scalars with keep chomping)
+    specials.push(V::Map(vec![(V::Str("first".into()), V::Int(1)), (V::Str("notes".into()), V::Str("line\n\n\n".into()))]));
+    specials.push(V::Seq(vec![V::Int(1), V::Seq(vec![V::Str("x\n\n".into())])]));
     // pinned witness of the recorded finding toml_nested_three_groups
     let m1 = V::Map(vec![(V::Str("m".into()), V::Int(1))]);
     specials.push(V::Map(vec![(V::Str("j".into()), V::Map(vec![(V::Str("k".into()), m1.clone()), (V::Str("o".into()), V::Seq(vec![V::Map(vec![(V::Str("p".into()), V::Int(1))])])),
@@ -135,6 +140,12 @@ pub fn record_translate(out_path: &str, count: u64) {
                 let class = class_of(&v, to);
                 for (si, sp) in [0u64, rng.next() | 1, rng.next() | 1, rng.next() | 1].into_iter().enumerate() {
                     let Some(mut bytes) = val::encode(&v, from, Spell { seed: sp }) else { continue };
+                    if si == 1 && from == "yaml" {
+                        // YAML 1.2 allows a byte order mark in front of a UTF-8 stream as well
+                        let mut b = vec![0xef, 0xbb, 0xbf];
+                        b.extend_from_slice(&bytes);
+                        bytes = b;
+                    }
                     if si == 2 && from == "yaml" {
                         // a YAML document may be indented as a whole (block scalars excepted: their indicators are relative)
                         let text = String::from_utf8(bytes).unwrap();
@@ -188,6 +199,86 @@ pub fn record_translate(out_path: &str, count: u64) {
     o.sum.finish();
 }
 
+
+/// C08: whatever is written to a TOML target is one document that reads back as the input value, and
+/// what TOML cannot hold is refused.  Documents TOML can hold (with full-precision floats, every key
+/// quoting style, nested arrays of tables), and the same documents with one planted element it cannot:
+/// a null, an integer beyond i64, binary data, a key that is not a string, a repeated key, or a root
+/// that is not a table - at a random node, from each source format that can express it.
+pub fn record_toml(out_path: &str, count: u64) {
+    let seed = seed_from_env();
+    let mut o = Out { w: BufWriter::new(File::create(out_path).expect("trace")), sum: Summary::new("record-toml") };
+    let mut vid = 0u64;
+    for i in 0..count {
+        let mut rng = Rng::derive(seed, "toml-values", i);
+        let base = val::gen_toml_doc(&mut rng);
+        for from in FMTS {
+            // 0: as generated; 1..: one planted defect
+            for variant in 0..7u32 {
+                let mut v = base.clone();
+                let planted = match variant {
+                    0 => "none",
+                    1 if from != "toml" => {
+                        crate::scen::replace_random_node(&mut v, &mut rng, &V::Null, false);
+                        "null"
+                    }
+                    2 if from != "toml" => {
+                        let big = *rng.pick(&[i128::from(i64::MAX) + 1, i128::from(u64::MAX), i128::from(i64::MAX) + 12345]);
+                        crate::scen::replace_random_node(&mut v, &mut rng, &V::Int(big), false);
+                        "bigint"
+                    }
+                    3 if from == "msgpack" => {
+                        crate::scen::replace_random_node(&mut v, &mut rng, &V::Bin(vec![120, 116]), false);
+                        "bin"
+                    }
+                    4 if from == "msgpack" => {
+                        let k = rng.pick(&[V::Int(5), V::Bool(true), V::Null]).clone();
+                        crate::scen::replace_random_node(&mut v, &mut rng, &V::Map(vec![(V::Str("s".into()), V::Int(1)), (k, V::Int(2))]), false);
+                        "nonstring-key"
+                    }
+                    5 if from == "msgpack" || from == "yaml" => {
+                        if from == "yaml" {
+                            continue; // (libyaml itself refuses a repeated key: nothing of xt's to observe)
+                        }
+                        crate::scen::replace_random_node(&mut v, &mut rng, &V::Map(vec![(V::Str("a".into()), V::Int(1)), (V::Str("b".into()), V::Int(3)), (V::Str("a".into()), V::Int(2))]), false);
+                        "repeated-key"
+                    }
+                    6 if from != "toml" => {
+                        v = rng.pick(&[V::Seq(vec![v.clone()]), V::Int(7), V::Str("text".into()), V::Bool(false), V::F64(1.5)]).clone();
+                        "root"
+                    }
+                    _ => continue,
+                };
+                // a defect planted on the root leaves nothing of the table: still a legitimate case (non-table root)
+                vid += 1;
+                o.rec(json!({"ev": "value", "vid": vid}));
+                let in_tree = v.tree();
+                let Some(bytes) = val::encode(&v, from, Spell { seed: rng.next() | 1 }) else { continue };
+                let bytes = Rc::new(bytes);
+                for (sched, mode) in [(None, "slice"), (Some(Sched::Random(Rng::new(rng.next()), 13)), "reader")] {
+                    let (res, out, msg) = xlate(&bytes, Some(from), "toml", sched);
+                    let (tree, pending) = if res == "ok" { out_tree("toml", &out) } else { (json!({"t": "none", "s": "", "d": [], "xs": []}), None) };
+                    let mut r = json!({"ev": "translate", "vid": vid, "from": from, "to": "toml", "mode": mode, "model": if planted == "none" { "common" } else { "planted" },
+                                       "res": res, "class": "", "planted": planted, "wrote": out.len(),
+                                       "inTree": in_tree, "outTree": tree, "outDigest": format!("{:016x}:{}", fnv(&out), out.len()),
+                                       "spelling": 0, "input_hex": hex(&bytes[..bytes.len().min(600)]), "msg": msg.chars().take(120).collect::<String>()});
+                    if let Some(h) = pending {
+                        r["out_hex"] = json!(h);
+                    }
+                    o.rec(r);
+                    o.sum.eval();
+                }
+                o.sum.nontrivial(format!("{vid}/{from}/{planted}"));
+                if o.sum.samples.len() < 4 && vid % 97 == 3 {
+                    o.sum.sample(json!({"from": from, "planted": planted, "value": in_tree}));
+                }
+            }
+        }
+    }
+    o.w.flush().unwrap();
+    o.sum.finish();
+}
+
 /// C06: paths of up to 3 hops; every arrival of the same value in format B must agree.
 pub fn record_hops(out_path: &str, count: u64) {
     let seed = seed_from_env();
@@ -204,8 +295,14 @@ pub fn record_hops(out_path: &str, count: u64) {
         } else if i == 5 {
             // 2 500 entries of multi-byte text (about 50 KB of YAML): characters straddle the parsers' refill boundaries
             (V::Map((0..2500).map(|k| (V::Str(format!("k{k}")), V::Str(format!("\u{20ac}\u{1f600}\u{e9}{k}")))).collect()), "big")
+        } else if i == 6 {
+            // strings ending in several line breaks as the LAST node of the document (YAML writes them as
+            // block scalars with keep chomping: the blank lines are content, not space between documents)
+            (V::Map(vec![(V::Str("first".into()), V::Int(1)), (V::Str("notes".into()), V::Str("line\n\n\n".into()))]), "common4")
+        } else if i == 7 {
+            (V::Seq(vec![V::Int(1), V::Seq(vec![V::Str("x\n\n".into())])]), "common3")
         } else if i < 4 {
-            (witness, "common4")        // pinned witness of the recorded finding toml_nested_three_groups, from each start format
+            (witness, "common4")    // pinned witness of the recorded finding toml_nested_three_groups, from each start format
         } else if a == "toml" || i % 3 == 1 {
             (val::gen_toml_doc(&mut rng), "common4")
         } else if i % 3 == 0 {
